@@ -12,14 +12,15 @@ RULE = ("flat BSP decks with 0–3 surfaces flagged '*' (reflecting) or '+' (whi
         'BOUNDARY_CONDITION entry of the right kind per flagged surface that bounds a converted cell, none for unflagged '
         'ones, each entry designating a SURF of the file whose definition equals that of the flagged surface (reference '
         'definitions come from the --skip-deduplication output of the same deck), declared count right; a flag on a '
-        'macrobody must be rejected. Non-trivial = deck has a flagged surface.')
+        'macrobody must be rejected; moved: a box with flagged faces and its LIKE n BUT TRCL copy — one entry per flagged '
+        'face and place (own, image). Non-trivial = deck has a flagged surface.')
 NOT_PROVED = ['that the emitted boundary entry designates the locus of the flagged MCNP surface: compared on each written file with the definition of the flagged surface in the --skip-deduplication output, no theorem']
 ASSUMPTIONS = ['flagged surfaces are single TRIPOLI-4 surfaces (planes, spheres, cylinders, quadrics, two-sheet cones)']
 
 
 def plan(tier):
     q = tier == 'quick'
-    return [('bc', 300 if q else 5000, {}), ('macro', 40 if q else 400, {})]
+    return [('bc', 300 if q else 5000, {}), ('macro', 40 if q else 400, {}), ('moved', 60 if q else 1200, {})]
 
 
 def search_plan(tier, disagreements):
@@ -62,8 +63,96 @@ def locus_equal(ctx, surf, t4def, rng):
     return (not resp_mismatch) or agree == 0
 
 
+def moved_case(seed, rng, ctx):
+    """a box bounded by flagged planes and a copy of it moved by LIKE n BUT TRCL (both converted): every flagged
+    surface bounds a converted cell twice, at its own place and at the place of its image; each place needs its
+    entry, of the right kind, designating a written surface with that locus"""
+    d = D.Deck()
+    lo = [rng.choice([-1.0, -0.5, 0.0]) for _ in range(3)]
+    hi = [lo[i] + rng.choice([1.0, 1.5, 2.0]) for i in range(3)]
+    names = ['px', 'py', 'pz']
+    sid = 0
+    planes = []
+    for i in range(3):
+        for v in (lo[i], hi[i]):
+            sid += 1
+            planes.append(D.Surf(sid, names[i], [v]))
+    flagged = rng.sample(planes, rng.randint(1, 3))
+    for s_ in flagged:
+        s_.bc = rng.choice(['*', '*', '+'])
+    d.surfs = planes
+    box = ('i', ('i', ('i', ('s', 1), ('s', -2)), ('i', ('s', 3), ('s', -4))), ('i', ('s', 5), ('s', -6)))
+    k = rng.randrange(3)
+    # every face moves (a face mapped onto itself would be merged with its original by de-duplication: finding F2a)
+    shift = [rng.choice([0.25, -0.75, 1.25, 2.75]) for _ in range(3)]
+    shift[k] = (hi[k] - lo[k]) + rng.choice([0.5, 1.0, 3.0])
+    if rng.random() < 0.5:
+        shift[k] = -shift[k]
+    m = D.Motion(shift, list(D.IDENT))
+    if rng.random() < 0.3:
+        m, _cls = G.random_motion(rng, 'perm')
+        m = D.Motion([6.0 + rng.choice(G.HALF), 7.0, -6.5], m.b)
+    c1 = D.Cell(10, box, mat=1, rho='-1.0')
+    c2 = D.Cell(11, box, mat=2, rho='-2.0', trcl=m)
+    how = rng.choice(['inline', 'num'])
+    if how == 'num':
+        d.trs[5] = (m, {'star': False, 'cls': 'perm'})
+        c2.hints['raw'] = '11 like 10 but trcl=5 mat=2 rho=-2.0'
+    else:
+        c2.hints['raw'] = '11 like 10 but mat=2 rho=-2.0 trcl=(%s)' % D.inline_tr(m)
+    c3 = D.Cell(12, ('i', ('cc', 10), ('cc', 11)), imp=0)
+    d.cells = [c1, c2, c3]
+    d.mats = {1: [('13027', '1.0')], 2: [('26056', '1.0')]}
+    text = D.render_deck(d, D.Layout(rng))
+    args = [] if rng.random() < 0.6 else ['--skip-deduplication']
+    key = h((text, tuple(args)))
+    res = impl.convert(text, args)
+    replay = {'deck': text, 'args': args}
+    if not res.ok:
+        if is_degenerate(res):
+            return None
+        return dict(hashes=[key], nontrivial_hashes=[key], dist={'moved:exception': 1}, sample=None,
+                    failures=[fail('violation', 'valid deck rejected: %s: %s' % (res.exc_type, (res.exc_msg or '')[:200]),
+                                   {'stream': 'moved', 'class': 'exception', 'error': res.exc_type}, replay)])
+    defs = surf_defs(res.t4)
+    count, ents = parse_bc(res.t4)
+    kinds_ = {'*': 'REFLECTION', '+': 'COSINUS'}
+    fails = []
+    if count is not None and count != len(ents):
+        fails.append(fail('violation', 'BOUNDARY_CONDITION declares %d entries, has %d' % (count, len(ents)),
+                          {'stream': 'moved', 'class': 'count'}, replay))
+    present = [(kd, int(sid_)) for kd, sid_ in ents if sid_.isdigit() and int(sid_) in defs]
+    for kd, sid_ in ents:
+        if not sid_.isdigit() or int(sid_) not in defs:
+            fails.append(fail('violation', 'boundary condition %s designates surface %s, which is not in the written geometry'
+                              % (kd, sid_), {'stream': 'moved', 'class': 'designates-absent'}, replay))
+    taken = set()
+    for s_ in flagged:
+        for where, surf in (('own place', D.Surf(s_.id, s_.mn, list(s_.ps))), ('moved copy', D.Surf(s_.id, s_.mn, list(s_.ps), tr=m))):
+            hit = None
+            for n_, (kd, j) in enumerate(present):
+                if n_ in taken or kd != kinds_[s_.bc]:
+                    continue
+                if locus_equal(ctx, surf, defs[j], rng):
+                    hit = n_
+                    break
+            if hit is None:
+                fails.append(fail('violation', 'flagged surface %s (%s) bounds a converted cell at its %s but no %s entry designates a surface with that locus (entries: %r)'
+                                  % (D.render_surf(s_), where, where, kinds_[s_.bc], ents), {'stream': 'moved', 'class': 'missing-entry'}, replay))
+            else:
+                taken.add(hit)
+    for n_, (kd, j) in enumerate(present):
+        if n_ not in taken:
+            fails.append(fail('violation', 'boundary condition %s on surface %d (%s) corresponds to no flagged surface' % (kd, j, defs[j]),
+                              {'stream': 'moved', 'class': 'spurious-entry'}, replay))
+    return dict(hashes=[key], nontrivial_hashes=[key], dist={'moved:flagged': len(flagged), 'moved:' + how: 1},
+                sample={'deck': text[:500], 'entries': ents}, failures=fails[:5])
+
+
 def run_case(stream, seed, ctx, params):
     rng = random.Random(seed)
+    if stream == 'moved':
+        return moved_case(seed, rng, ctx)
     if stream == 'macro':
         d = G.build_flat_deck(rng, macro_p=1.0, nsurf=rng.randint(1, 3), ncells=2)
         s = rng.choice(d.surfs)
